@@ -525,3 +525,50 @@ pub fn multi_movecursor(_args: &[String]) -> String {
     }
     format!("{{\"found\": false, \"tried\": {}}}", tried)
 }
+
+/// C09: duration equals elapsed plus eta (up to the clock reads in between), also after with_elapsed, reset_eta and
+/// reset_elapsed; eta and duration are zero for an unknown length and for a finished bar.
+pub fn time_laws(_args: &[String]) -> String {
+    use indicatif::ProgressBar;
+    use std::time::Duration;
+    let mut tried = 0u64;
+    for pre in [0u64, 90, 7200] {
+        for how in 0..4 {
+            let pb = ProgressBar::hidden().with_elapsed(Duration::from_secs(pre));
+            pb.set_length(1000);
+            let mut hist = vec![format!("hidden bar with_elapsed({} s), length 1000", pre)];
+            for _ in 0..5 { pb.inc(10); std::thread::sleep(Duration::from_millis(4)); }
+            hist.push("5 x (inc(10); sleep 4 ms)".into());
+            match how { 1 => { pb.reset_eta(); hist.push("reset_eta".into()); } 2 => { pb.reset_elapsed(); hist.push("reset_elapsed".into()); } 3 => { pb.set_position(5); hist.push("set_position(5) (a backwards seek)".into()); } _ => {} }
+            for _ in 0..5 { pb.inc(10); std::thread::sleep(Duration::from_millis(4)); }
+            hist.push("5 x (inc(10); sleep 4 ms)".into());
+            let e1 = pb.elapsed();
+            let eta = pb.eta();
+            let d = pb.duration();
+            let e2 = pb.elapsed();
+            tried += 1;
+            // elapsed grows between the reads and eta moves with the clock: allow 250 ms either way
+            let slack = Duration::from_millis(250);
+            let lo = (e1 + eta).checked_sub(slack).unwrap_or_default();
+            let hi = e2 + eta + slack;
+            if d < lo || d > hi {
+                let h: Vec<&str> = hist.iter().map(String::as_str).collect();
+                return format!("{{\"found\": true, \"clause\": \"C09 duration equals elapsed plus eta\", \"input\": {{\"history\": {}, \"elapsed_ms\": {}, \"eta_ms\": {}, \"duration_ms\": {}}}, \"rerun\": \"replay time_laws\"}}",
+                    crate::jlist(&h), e1.as_millis(), eta.as_millis(), d.as_millis());
+            }
+            pb.finish();
+            tried += 1;
+            if pb.eta() != Duration::ZERO || pb.duration() != Duration::ZERO {
+                return format!("{{\"found\": true, \"clause\": \"C09 eta and duration are zero once the bar is finished\", \"input\": {{\"with_elapsed_secs\": {}, \"eta_ms\": {}, \"duration_ms\": {}}}, \"rerun\": \"replay time_laws\"}}", pre, pb.eta().as_millis(), pb.duration().as_millis());
+            }
+        }
+        let pb = ProgressBar::hidden().with_elapsed(Duration::from_secs(pre));
+        pb.unset_length();
+        pb.inc(3);
+        tried += 1;
+        if pb.eta() != Duration::ZERO || pb.duration() != Duration::ZERO {
+            return format!("{{\"found\": true, \"clause\": \"C09 eta and duration are zero for an unknown length\", \"input\": {{\"with_elapsed_secs\": {}, \"eta_ms\": {}, \"duration_ms\": {}}}, \"rerun\": \"replay time_laws\"}}", pre, pb.eta().as_millis(), pb.duration().as_millis());
+        }
+    }
+    format!("{{\"found\": false, \"tried\": {}}}", tried)
+}
